@@ -151,6 +151,10 @@ def run(repo: Repo, rep: Report, tier: str) -> None:
     # ---------------------------------------------------------------- R7.3
     _dedup_site(repo.func("emitters.endpoints_emitter:EndpointsEmitter._deduplicate_operation_ids_globally"), "operation methods", "seen_methods", _Relabel(rep, "R7.3"))
     emit = repo.func("emitters.endpoints_emitter:EndpointsEmitter.emit")
+    from sa.flatten import flatten as _fl73
+
+    # the grouping loop may live in a helper (possibly shared with the mocks emitter): write it out, the de-duplication stays a call
+    emit = _fl73(emit, select=lambda h: any(isinstance(x, ast.Attribute) and x.attr == "tags" for x in ast.walk(h.node)))
     ded = [c for c in calls_in(emit.node) if isinstance(c.func, ast.Attribute) and c.func.attr == "_deduplicate_operation_ids_globally"]
     EL = Locals(emit.node)
 
@@ -158,7 +162,11 @@ def run(repo: Repo, rep: Report, tier: str) -> None:
         return isinstance(n, ast.For) and any(isinstance(x, ast.Attribute) and x.attr == "tags" for x in ast.walk(EL.inline(n.iter)))
 
     group_loops = [n for n in own_nodes(emit.node) if isinstance(n, ast.For) and not _iterates_tags(n) and any(_iterates_tags(x) for x in ast.walk(n) if x is not n)]
-    if ded and group_loops and ded[0].lineno < group_loops[0].lineno:
+    cfg73 = CFG(emit.node)
+    dom73 = cfg73.dominators()
+    ded_nodes = [n.id for n in cfg73.nodes if n.kind == "stmt" and n.ast is not None and not n.copy and any(c is ded[0] for c in calls_in(n.ast))] if ded else []
+    loop_nodes = [n.id for n in cfg73.nodes if n.kind == "iter" and group_loops and n.stmt is group_loops[0] and not n.copy]
+    if ded_nodes and loop_nodes and ded_nodes[0] in dom73[loop_nodes[0]]:
         rep.ok("R7.3", f"{emit.module.relpath}:EndpointsEmitter.emit dedup before grouping", "method names are made unique globally before operations are grouped by tag", emit.loc(ded[0]))
     else:
         rep.violation("R7.3", f"{emit.module.relpath}:EndpointsEmitter.emit dedup before grouping", f"{emit.fq}|dedup-order",
